@@ -225,6 +225,7 @@ CHECKS["C12"] = {
     "units": [
         {"pkg": "rangeproof", "run": "TestVF_C12_StatementLogic", "shards": {"quick": 8, "thorough": 16}, "timeout": {"quick": 500, "thorough": 3400}},
         {"pkg": "root", "run": "TestVF_C12_Forgeries", "rapid": {"quick": 50, "thorough": 500}, "shards": {"quick": 8, "thorough": 16}, "timeout": {"quick": 500, "thorough": 3400}},
+        {"pkg": "root", "run": "TestVF_C12_DegenerateCommitments", "rapid": {"quick": 40, "thorough": 400}, "shards": {"quick": 2, "thorough": 8}},
     ],
 }
 
@@ -239,6 +240,7 @@ CHECKS["C11"] = {
         {"pkg": "root", "run": "TestVF_C11_Histories", "rapid": {"quick": 60, "thorough": 500}, "steps": {"quick": 10, "thorough": 14},
          "shards": {"quick": 8, "thorough": 16}, "timeout": {"quick": 500, "thorough": 3400}},
         {"pkg": "root", "run": "TestVF_C11_Boundary", "rapid": {"quick": 6, "thorough": 60}, "shards": {"quick": 2, "thorough": 8}},
+        {"pkg": "root", "run": "TestVF_C11_WitnesslessProver", "rapid": {"quick": 20, "thorough": 200}, "shards": {"quick": 2, "thorough": 8}},
     ],
 }
 
